@@ -320,7 +320,23 @@ impl Model for SubModel {
     type Action = Act;
 
     fn init_states(&self) -> Vec<St> {
-        (0..self.cases.len()).map(|i| self.init_state(i)).collect()
+        (0..self.cases.len())
+            .filter_map(|i| match guarded(|| self.init_state(i)) {
+                Ok(st) => Some(st),
+                Err(msg) => {
+                    let c = &self.cases[i];
+                    self.violation_count.fetch_add(1, Ordering::Relaxed);
+                    self.violations.lock().unwrap().push(Violation {
+                        class: "panic".into(),
+                        key: 0,
+                        what: format!("[panic] creating the iterator for needle={} haystack={} panicked: {}", show(c.needle), show(c.hay), msg),
+                        replay_argv: vec![],
+                        detail: json!({"class": "panic", "needle": hex(c.needle), "haystack": hex(c.hay)}),
+                    });
+                    None
+                }
+            })
+            .collect()
     }
 
     fn actions(&self, st: &St, actions: &mut Vec<Act>) {
@@ -488,7 +504,7 @@ fn explore(model: SubModel, total: &mut Report, exhaustive: &mut bool) -> (u64, 
         if found == 0 {
             total.machinery_errors.push("stateright reported a discovery but the model recorded no violation".into());
         }
-    } else if found > 0 {
+    } else if found > 0 && !total.violations.iter().any(|v| v.class == "panic") {
         total.machinery_errors.push("the model recorded a violation but stateright reported no discovery".into());
     }
     if let Some(c) = m.cases.iter().find(|c| c.family == "PF" && c.reference.len() >= 2).or(m.cases.last()) {
@@ -620,7 +636,7 @@ pub fn run(args: &Args, thorough: bool, total: &mut Report, bounds: &mut Map<Str
     {
         let mut r = Report::default();
         for c in &sub {
-            walk(c, &mut r);
+            walk_guarded(c, &mut r);
         }
         walker_states += r.states;
     }
